@@ -6,6 +6,7 @@ import (
 	sdkerrors "github.com/cosmos/cosmos-sdk/types/errors"
 	"github.com/unification-com/mainchain/x/wrkchain/exported"
 	"github.com/unification-com/mainchain/x/wrkchain/types"
+	"math"
 )
 
 // CorrectWrkChainFeeDecorator checks if the correct fees have been sent to pay for a
@@ -103,7 +104,12 @@ func checkWrkChainMaxSlots(ctx sdk.Context, tx sdk.FeeTx, wck WrkchainKeeper) er
 				purchaseData[wrkchainId] = b{max: maxCanPurchase, want: numSlots}
 			} else {
 				pd := purchaseData[wrkchainId]
-				pd.want = pd.want + numSlots
+				if pd.want+numSlots < pd.want {
+					// the sum does not fit uint64: it certainly exceeds the maximum
+					pd.want = math.MaxUint64
+				} else {
+					pd.want = pd.want + numSlots
+				}
 				purchaseData[wrkchainId] = pd
 			}
 		}
